@@ -411,8 +411,12 @@ class Check:
                   violations=len(self.violations))
         if self.infra:
             ev["infrastructure_errors"] = self.infra
-        os.makedirs(os.path.join(ROOT, "evidence"), exist_ok=True)
-        with open(os.path.join(ROOT, "evidence", self.prop + ".json"), "w") as f:
+        evdir = os.path.join(ROOT, "evidence")
+        if os.path.realpath(os.environ.get("VERIF_REPO", "/repo")) != "/repo":
+            # a run against another tree (seeded change in a scratch worktree) must not replace /repo's evidence
+            evdir = os.path.join(tempfile.gettempdir(), "verif-evidence-other-tree")
+        os.makedirs(evdir, exist_ok=True)
+        with open(os.path.join(evdir, self.prop + ".json"), "w") as f:
             json.dump(ev, f, indent=1, default=str)
         for h in self.known_hits:
             print("KNOWN-FINDING: property=%s %s" % (self.prop, re.sub(r"^known: property=\S+ ", "", h["text"])))
